@@ -1015,6 +1015,16 @@ func evalLogicComparator(vm *r.VM, expr *syntax.LogicExpr) (*value.Bool, error) 
 
 // [elem] 为 [elem] -> [bool]
 func compareLogicXEQ(left r.Element, right r.Element) (bool, error) {
+	// a plain value is simply unequal to whatever is not a plain value (an object, a method,
+	// a type) - on whichever side it stands: X == 空 answers like 空 == X
+	switch right.(type) {
+	case *value.Null, *value.Number, *value.String, *value.Bool, *value.Array, *value.HashMap:
+		switch left.(type) {
+		case *value.Null, *value.Number, *value.String, *value.Bool, *value.Array, *value.HashMap:
+		default:
+			return false, nil
+		}
+	}
 	switch vl := left.(type) {
 	case *value.Null:
 		if _, ok := right.(*value.Null); ok {
